@@ -263,7 +263,7 @@ def finalState {S : Type} (s0 : S) (it bk : Nat → S) (sv : S) (nz : S → S) (
 
 /-! ### kind-K contract on the observable results -/
 
-/-- what the public API lets us see of one call -/
+/-- what the public API lets us see of one call (`restored`: the q (resp. u) held on return is bitwise the q passed in) -/
 structure Obs (K : Type) where
   status : Status
   anyChange : Bool
@@ -272,51 +272,81 @@ structure Obs (K : Type) where
   normIn : K
   normOut : Option K
   threw : Bool
+  restored : Bool
 
 def Results.obs (r : Results K) (dflt : K) : Obs K :=
-  ⟨r.status, r.anyChange, r.limitExceeded, r.its, r.normIn.getD dflt, r.normOut, r.threw⟩
+  ⟨r.status, r.anyChange, r.limitExceeded, r.its, r.normIn.getD dflt, r.normOut, r.threw,
+   (r.sel == .entry || r.sel == .saved) && !r.normalized⟩
 
-/-- outcome clauses shared by the Newton paths of projectQ / projectU.  (A FORCED projection that starts within the
-accuracy and only makes things worse restores the entry state but still reports failure with exit norm = entry norm
-`≤ acc`; hence `… || o.force` in the failure clauses.) -/
-def newtonOutcome (o : Opts K) (ob : Obs K) (maxIts : Nat) : Bool :=
-  decide (1 ≤ ob.its) && decide (ob.its ≤ maxIts) && ob.anyChange && (o.force || decide (o.acc < ob.normIn)) &&
+/-- outcome clauses of the Newton path of projectQ / projectU: between 1 and `maxIts` iterations, a change was made;
+Succeeded only with exit norm within the accuracy; FailedToConverge only under LocalOnly from the 2nd iteration on;
+thrown iff failed and `!DontThrow`.  When no quaternion can fail afterwards (`noQuat`: projectU, or mQuats = 0) a
+failure never returns a worse norm than it got (`n ≤ perrIn`), and exit norm = entry norm means the saved state was
+written back (`restored`).  (A FORCED projection that starts within the accuracy and only makes things worse restores
+the entry state but still reports failure with exit norm `≤ acc`; hence `… || o.force` in the failure clauses.) -/
+def newtonOutcome (o : Opts K) (ob : Obs K) (maxIts : Nat) (noQuat : Bool) (perrIn : K) : Bool :=
+  decide (1 ≤ ob.its) && decide (ob.its ≤ maxIts) && ob.anyChange &&
   match ob.normOut with
   | none => false
   | some n =>
     (ob.status == .succeeded && decide (n ≤ o.acc) && !ob.threw) ||
-    (ob.status == .failedAcc && (decide (o.acc < n) || o.force) && (ob.threw == !o.dontThrow)) ||
-    (ob.status == .failedConv && (decide (o.acc < n) || o.force) && o.localOnly && decide (2 ≤ ob.its) &&
-      (ob.threw == !o.dontThrow))
+    ((ob.status == .failedAcc || (ob.status == .failedConv && o.localOnly && decide (2 ≤ ob.its))) &&
+      (decide (o.acc < n) || o.force) && (ob.threw == !o.dontThrow) &&
+      (!noQuat || (decide (n ≤ perrIn) && (!(n == perrIn) || ob.restored))))
 
-/-- acceptance of an observed projectQ outcome: one clause per exit of the code -/
-def acceptsQ (o : Opts K) (ob : Obs K) : Bool :=
-  if exceeds o.limit ob.normIn then
-    ob.limitExceeded && ob.status == .failedConv && ob.its == 0 && !ob.anyChange && ob.normOut.isNone && !ob.threw
+/-- the projection-limit exit -/
+def limitOutcome (ob : Obs K) : Bool :=
+  ob.limitExceeded && ob.status == .failedConv && ob.its == 0 && !ob.anyChange && ob.normOut.isNone && !ob.threw &&
+  ob.restored
+
+/-- acceptance of an observed projectQ outcome.  The exit is decided exactly as the code decides it, from the two entry
+norms (weighted perr norm, quaternion norm — recomputed by the model from the exported entry errors), then the clause of
+that exit must hold. -/
+def acceptsQ (o : Opts K) (mQuats : Nat) (perrIn quatIn : K) (ob : Obs K) : Bool :=
+  let normIn := if quatIn ≤ perrIn then perrIn else quatIn
+  if exceeds o.limit normIn then limitOutcome ob
   else
     !ob.limitExceeded &&
-    ( -- nothing to do
-      (ob.status == .succeeded && ob.its == 0 && !ob.anyChange && !ob.threw && !o.force && decide (ob.normIn ≤ o.acc) &&
-        (match ob.normOut with | some n => n == ob.normIn | none => false))
-      -- only quaternions normalised
-      || (ob.its == 0 && (o.force || decide (o.acc < ob.normIn)) &&
+    (if perrIn == 0 || (decide (perrIn ≤ o.acc) && !o.force) then
+      if decide (o.acc < quatIn) || o.force then
+        -- only quaternions normalised
+        ob.its == 0 &&
           (match ob.normOut with
            | none => false
            | some n => (ob.status == .succeeded && decide (n ≤ o.acc) && !ob.threw) ||
-                       (ob.status == .failedAcc && decide (o.acc < n) && (ob.threw == !o.dontThrow))))
-      -- Newton iteration
-      || newtonOutcome o ob maxItsQ )
+                       (ob.status == .failedAcc && decide (o.acc < n) && (ob.threw == !o.dontThrow)))
+      else
+        -- nothing to do
+        ob.status == .succeeded && ob.its == 0 && !ob.anyChange && !ob.threw && ob.restored &&
+          (match ob.normOut with | some n => n == normIn | none => false)
+    else newtonOutcome o ob maxItsQ (mQuats == 0) perrIn)
 
-/-- acceptance of an observed projectU outcome -/
-def acceptsU (o : Opts K) (ob : Obs K) : Bool :=
-  if exceeds o.limit ob.normIn then
-    ob.limitExceeded && ob.status == .failedConv && ob.its == 0 && !ob.anyChange && ob.normOut.isNone && !ob.threw
+/-- acceptance of an observed projectU outcome (`verrIn` = weighted entry norm recomputed by the model) -/
+def acceptsU (o : Opts K) (verrIn : K) (ob : Obs K) : Bool :=
+  if exceeds o.limit verrIn then limitOutcome ob
   else
     !ob.limitExceeded &&
-    ( (ob.status == .succeeded && ob.its == 0 && !ob.anyChange && !ob.threw &&
-        (match ob.normOut with | some n => n == ob.normIn | none => false) &&
-        ((!o.force && decide (ob.normIn ≤ o.acc)) || ob.normIn == 0))
-      || newtonOutcome o ob maxItsU )
+    (if verrIn == 0 || (decide (verrIn ≤ o.acc) && !o.force) then
+      ob.status == .succeeded && ob.its == 0 && !ob.anyChange && !ob.threw && ob.restored &&
+        (match ob.normOut with | some n => n == verrIn | none => false)
+    else newtonOutcome o ob maxItsU true verrIn)
+
+/-! ### `System::project(state, accuracy)` dispatch (System.cpp) -/
+
+/-- the calls `System::project` makes, in order -/
+inductive Step | realizeTime | prescribeQ | realizePosition | projectQ | prescribeU | realizeVelocity | projectU
+deriving DecidableEq, Repr
+
+def projectSteps : List Step :=
+  [.realizeTime, .prescribeQ, .realizePosition, .projectQ, .prescribeU, .realizeVelocity, .projectU]
+
+/-- `ProjectOptions(accuracy)`: `clear()` (no option set, overshoot 0.1, limit Infinity) then `setRequiredAccuracy` -/
+def defaultOpts (dfltAcc dfltOvershoot sig acc : K) : Opts K :=
+  ⟨setRequiredAccuracy dfltAcc acc, dfltOvershoot, none, sig, false, false, false, false⟩
+
+/-- `System::project` throws iff its projectQ throws, or else its projectU throws (projectU is not reached after a
+throwing projectQ) -/
+def projectThrows (threwQ threwU : Bool) : Bool := threwQ || threwU
 
 end Skeleton
 
@@ -344,6 +374,11 @@ def normalizeQuat (sqrt : K → K) (q : Quat K) : Quat K :=
 def projectErrEst (quat e : Quat K) : Quat K :=
   let d := e.dot quat
   ⟨e.w - d * quat.w, e.x - d * quat.x, e.y - d * quat.y, e.z - d * quat.z⟩
+
+/-- `normalizeQuaternions(s,qErrest)` over all quaternion mobilizers: those whose q is prescribed
+(`mobodInfo.qMethod != Motion::Free`, flag `false`) are skipped -/
+def normalizeQuatsMasked (sqrt : K → K) (qs : List (Bool × Quat K)) : List (Bool × Quat K) :=
+  qs.map (fun p => if p.1 then (p.1, normalizeQuat sqrt p.2) else p)
 
 end Quat
 
@@ -410,6 +445,33 @@ def minNormWeighted (n : Nat) (A : List (List K)) (tp winv b : List K) : List K 
   let M := gramL A'
   let lam := solveL M (List.zipWith (· * ·) tp b)
   (List.zipWith (· * ·) winv (mulVecTL n A' lam), lam, M)
+
+/-- projectU's relative scaling of a change in u: `uRelScale[i] = |u_i|*Wu_i > 1 ? |u_i| : 1/Wu_i`
+("max(unit error, u)"); the velocity correction minimises `Σ (du_i / uRelScale_i)²` -/
+def uRelScale [OfNat K 1] (u wu : List K) : List K :=
+  List.zipWith (fun ui wi => let a := (if ui < 0 then -ui else ui); if 1 < a * wi then a else 1 / wi) u wu
+
+/-- `1/Wu` (`uWeights.elementwiseInvert()`) -/
+def invertAll [OfNat K 1] (w : List K) : List K := w.map (fun x => 1 / x)
+
+/-- dense product of an `a×b` by a `b×c` matrix given as row lists (`c` columns) -/
+def matMulL (c : Nat) (A B : List (List K)) : List (List K) :=
+  A.map (fun r => (List.range c).map (fun j => dotL r (B.map (fun br => br.getD j 0))))
+
+/-- the position step for general mobilizers: `S = Wq⁺ = N Wu⁻¹ N⁺` (nq×nq), `Pqw_r = (Tp Pq S)` restricted to the free
+columns, `dfq = Pqw_rᵀ μ` with `(Pqw_r Pqw_rᵀ) μ = Tp perr` (QTZ at full row rank), `dq = S unpack(dfq)`.
+Returns `(dq, μ, M)`. -/
+def minNormStepN (nq _nu : Nat) (free : List Nat) (Pq Nm NInv : List (List K)) (tp winvU b : List K) :
+    List K × List K × List (List K) :=
+  let NW := Nm.map (fun r => List.zipWith (· * ·) r winvU)          -- N Wu⁻¹   (nq×nu)
+  let S := matMulL nq NW NInv                                        -- nq×nq
+  let PS := matMulL nq Pq S                                          -- m×nq
+  let Ar := List.zipWith (fun r t => (pack free r 0).map (fun a => t * a)) PS tp
+  let M := gramL Ar
+  let mu := solveL M (List.zipWith (· * ·) tp b)
+  let dfq := mulVecTL free.length Ar mu
+  let udfq := unpack free dfq (List.replicate nq 0)
+  (mulVecL S udfq, mu, M)
 
 /-- the same step restricted to the free columns (`calcWeightedPqrTranspose` packs rows of `~Pqw`), zero in the
 prescribed slots (`unpackFreeQ` into a zero vector).  Returns `(dq, λ, M)`. -/
